@@ -37,6 +37,7 @@ func init() {
 			"map iteration order is Go's native randomised order in this check; the owned map-order seam is part of the instrumented C20 check"},
 		Run: runC14,
 		Replay: func(c *engine.Ctx, raw json.RawMessage) {
+			engine.PinMapOrder()
 			var cs c14Case
 			unmarshalCase(raw, &cs)
 			c14Prev = nil
@@ -60,6 +61,7 @@ func init() {
 }
 
 func runC14(c *engine.Ctx) {
+	engine.PinMapOrder()
 	pk := func(name string, e *ref.EAP) {
 		c14Packet(c, c14Case{K: "packet", Name: name, E: e})
 	}
